@@ -447,6 +447,7 @@ func genBackend(t *rapid.T, c *Client, o genOpts) Backend {
 		b.OKMessage = rapid.SampledFrom([]string{"", "", "", "OK", "all good"}).Draw(t, "ok_message")
 	}
 	b.EarlyHeaders = rapid.IntRange(0, 2).Draw(t, "early_headers") == 0
+	b.IdentityHeader = rapid.IntRange(0, 5).Draw(t, "resp_identity_header") == 0
 	b.CloseBody = rapid.IntRange(0, 2).Draw(t, "close_body") == 0
 	if b.CloseBody {
 		b.CloseAgain = rapid.Bool().Draw(t, "close_again")
